@@ -44,14 +44,35 @@ pub struct Item {
     pub prefix: Vec<u8>,
     pub expect_n: Vec<u8>,
     pub cost: u32,
+    pub ycost: u32,
 }
 
 pub fn children(item_len: usize, cost: u32, choices: &[ChoicePoint], c: u32, out: &mut Vec<Item>) {
+    children2(item_len, cost, 0, choices, c, 0, out)
+}
+
+/// `cy` = additional deviations that may only be spent at yield points.
+pub fn children2(
+    item_len: usize,
+    cost: u32,
+    ycost: u32,
+    choices: &[ChoicePoint],
+    c: u32,
+    cy: u32,
+    out: &mut Vec<Item>,
+) {
     for i in (item_len..choices.len()).rev() {
         let cp = choices[i];
         for alt in (1..cp.n).rev() {
             let add = (cp.cost_mask >> alt) & 1;
-            let nc = cost + add;
+            let (mut nc, mut nyc) = (cost, ycost);
+            if add == 1 {
+                if cp.at_yield && nyc < cy {
+                    nyc += 1;
+                } else {
+                    nc += 1;
+                }
+            }
             if c != UNBOUNDED && nc > c {
                 continue;
             }
@@ -63,6 +84,7 @@ pub fn children(item_len: usize, cost: u32, choices: &[ChoicePoint], c: u32, out
                 prefix: p,
                 expect_n: ns,
                 cost: nc,
+                ycost: nyc,
             });
         }
     }
@@ -130,6 +152,7 @@ fn account(st: &mut Stats, scn: &Scn, out: &Outcome, item: &Item) {
 /// (index, count): the DFS tree is cut at a frontier of prefixes which are
 /// dealt round-robin to the shards.
 pub fn explore(scn: &Scn, c: u32, shard: (usize, usize), cap: u64, deadline: Instant) -> Stats {
+    let cy = scn.extra_yield;
     let t0 = Instant::now();
     let mut st = Stats {
         scenario: scn.name.clone(),
@@ -158,6 +181,7 @@ pub fn explore(scn: &Scn, c: u32, shard: (usize, usize), cap: u64, deadline: Ins
         prefix: vec![],
         expect_n: vec![],
         cost: 0,
+        ycost: 0,
     });
     let want = if sk > 1 { sk * 8 } else { 0 };
     // phase 1: breadth-first until the frontier is wide enough (every shard
@@ -172,7 +196,7 @@ pub fn explore(scn: &Scn, c: u32, shard: (usize, usize), cap: u64, deadline: Ins
             account(&mut st, scn, &out, &it);
         }
         let mut ch = Vec::new();
-        children(it.prefix.len(), it.cost, &out.rec.choices, c, &mut ch);
+        children2(it.prefix.len(), it.cost, it.ycost, &out.rec.choices, c, cy, &mut ch);
         ch.reverse();
         for x in ch {
             frontier.push_back(x);
@@ -205,7 +229,7 @@ pub fn explore(scn: &Scn, c: u32, shard: (usize, usize), cap: u64, deadline: Ins
         if !st.machinery_errors.is_empty() {
             break;
         }
-        children(it.prefix.len(), it.cost, &out.rec.choices, c, &mut stack);
+        children2(it.prefix.len(), it.cost, it.ycost, &out.rec.choices, c, cy, &mut stack);
     }
     st.wall_ms = t0.elapsed().as_millis() as u64;
     st
